@@ -101,6 +101,17 @@ def finish(prop, tier, seed, t0, coverage, violations, assumptions, infra_proble
     coverage["known_finding_hits"] = {k: n for k, (_, n) in known_hits.items()}
     # one VIOLATION line per distinct failure message head (root-cause grouping is manual)
     printed = 0
+    # grammar shrinking for the first few single-grammar violations (inputs were already shrunk by proptest)
+    if new and ws.TAG is not None:
+        from . import shrink
+        rounds = 6 if tier == "quick" else 14
+        for i in range(min(2, len(new))):
+            if "regression" in new[i]:
+                continue
+            try:
+                new[i] = shrink.shrink(prop, new[i], rounds)
+            except Exception as e:
+                log("shrinking failed: %r" % (e,))
     for v in new[:20]:
         path = write_replay(prop, v)
         print("VIOLATION property=%s replay=%s" % (prop, path))
